@@ -10,7 +10,7 @@
 From Coq Require Import List NArith ZArith Bool Lia.
 Import ListNotations.
 From JB Require Import Constants Bytes Utf8 Num Value Codec Decimal JsonText Order TreeOps Contain SetOps CmpKey Render Serde
-  Path PathSem Dispatch Walk CompareWalk ComparableWalk RenderWalk SelWalk CastWalk SerdeWalk KeysWalk EditWalk EditWalk2
+  Path PathInd PathSem Dispatch Walk CompareWalk ComparableWalk RenderWalk SelWalk CastWalk SerdeWalk KeysWalk EditWalk EditWalk2
   ContainWalk SetWalk.
 From JB Require Import NumProofs OrderProofs CodecProofs RoundtripProofs DispatchProofs MiscProofs TextProofs SerdeProofs
   WalkProofs CompareWalkProofs ComparableWalkProofs RenderWalkProofs SelWalkProofs CastWalkProofs SerdeWalkProofs
@@ -596,19 +596,21 @@ Lemma res_map_bind_nv {B} (r : res (list value)) (k k' : list value -> res B) : 
   (do fr <- res_map (map nv) r; k' fr) = (do fr <- r; k fr).
 Proof. intros H. destruct r; cbn [res_map bind]; [apply H|reflexivity|reflexivity]. Qed.
 
-Lemma walk_nv (fe fe' : value -> expr -> res bool) : (forall pos e, fe' (nv pos) e = fe pos e) ->
-  forall ps fr, walk fe' ps (map nv fr) = res_map (map nv) (walk fe ps fr).
+Lemma walk_nv (fe fe' : value -> expr -> res bool) :
+  forall ps fr, steps_all (fun e => forall pos, fe' (nv pos) e = fe pos e) ps ->
+  walk fe' ps (map nv fr) = res_map (map nv) (walk fe ps fr).
 Proof.
-  intros H. induction ps as [|p ps IH]; intros fr; [reflexivity|].
+  induction ps as [|p ps IH]; intros fr H; [reflexivity|].
+  apply steps_all_cons in H. destruct H as [Hp H].
   assert (Step : forall q, (do fr' <- flat_map_res (select_step q) (map nv fr); walk fe' ps fr')
                            = res_map (map nv) (do fr' <- flat_map_res (select_step q) fr; walk fe ps fr')).
   { intros q. rewrite (flat_map_res_nv (select_step q) (select_step q) (select_step_nv q)).
-    destruct (flat_map_res (select_step q) fr); cbn [res_map bind]; [apply IH|reflexivity|reflexivity]. }
-  assert (Filt : forall e, (do fr' <- filter_res (fun pos => fe' pos e) (map nv fr); walk fe' ps fr')
+    destruct (flat_map_res (select_step q) fr); cbn [res_map bind]; [apply IH; exact H|reflexivity|reflexivity]. }
+  assert (Filt : forall e, In e (step_exprs p) -> (do fr' <- filter_res (fun pos => fe' pos e) (map nv fr); walk fe' ps fr')
                            = res_map (map nv) (do fr' <- filter_res (fun pos => fe pos e) fr; walk fe ps fr')).
-  { intros e. rewrite (filter_res_nv (fun pos => fe pos e) (fun pos => fe' pos e) (fun x => H x e)).
-    destruct (filter_res (fun pos => fe pos e) fr); cbn [res_map bind]; [apply IH|reflexivity|reflexivity]. }
-  destruct p; cbn [walk]; try apply Step; try apply Filt; apply IH.
+  { intros e He. rewrite (filter_res_nv (fun pos => fe pos e) (fun pos => fe' pos e) (fun x => Hp e He x)).
+    destruct (filter_res (fun pos => fe pos e) fr); cbn [res_map bind]; [apply IH; exact H|reflexivity|reflexivity]. }
+  destruct p; cbn [walk]; try apply Step; try (apply Filt; left; reflexivity); apply IH; exact H.
 Qed.
 Lemma walk_operand_nv : forall ps fr, walk_operand ps (map nv fr) = res_map (map nv) (walk_operand ps fr).
 Proof.
@@ -673,27 +675,36 @@ Qed.
 Lemma nonempty_map {A B} (f : A -> B) l : match map f l with [] => false | _ => true end = match l with [] => false | _ => true end.
 Proof. destruct l; reflexivity. Qed.
 
-Theorem eval_nv : forall fuel,
-  (forall root cur ps, find_positions fuel (nv root) (option_map nv cur) ps = res_map (map nv) (find_positions fuel root cur ps)) /\
-  (forall root pos e, filter_expr fuel (nv root) (nv pos) e = filter_expr fuel root pos e).
+Lemma find_positions_with_nv fe fe' root cur ps : steps_all (fun e => forall pos, fe' (nv pos) e = fe pos e) ps ->
+  find_positions_with fe' (nv root) (option_map nv cur) ps = res_map (map nv) (find_positions_with fe root cur ps).
 Proof.
-  induction fuel as [|f [IHp IHe]]; [split; reflexivity|]. split.
-  - intros root cur ps. cbn [find_positions].
-    assert (St : (match ps with PCurrent :: _ => match option_map nv cur with Some c => Ok c | None => Panic end | _ => Ok (nv root) end)
-                 = res_map nv (match ps with PCurrent :: _ => match cur with Some c => Ok c | None => Panic end | _ => Ok root end))
-      by (destruct ps as [|[] ?]; try reflexivity; destruct cur; reflexivity).
-    rewrite St. destruct (match ps with PCurrent :: _ => match cur with Some c => Ok c | None => Panic end | _ => Ok root end) as [s| |];
-      cbn [res_map bind]; try reflexivity.
-    change [nv s] with (map nv [s]). apply walk_nv. intros pos e. apply IHe.
-  - intros root pos e. cbn [filter_expr]. destruct e; try reflexivity.
-    + destruct op; try (rewrite !IHe; reflexivity);
-        apply compare_operands_nv; apply expr_values_nv.
-    + change (Some (nv pos)) with (option_map nv (Some pos)). rewrite (IHp root (Some pos) l). destruct (find_positions f root (Some pos) l) as [fr| |]; cbn [res_map bind]; try reflexivity.
-      rewrite nonempty_map. reflexivity.
+  intros H. unfold find_positions_with.
+  assert (St : (match ps with PCurrent :: _ => match option_map nv cur with Some c => Ok c | None => Panic end | _ => Ok (nv root) end)
+               = res_map nv (match ps with PCurrent :: _ => match cur with Some c => Ok c | None => Panic end | _ => Ok root end))
+    by (destruct ps as [|[] ?]; try reflexivity; destruct cur; reflexivity).
+  rewrite St. destruct (match ps with PCurrent :: _ => match cur with Some c => Ok c | None => Panic end | _ => Ok root end) as [s| |];
+    cbn [res_map bind]; try reflexivity.
+  change [nv s] with (map nv [s]). apply walk_nv. exact H.
+Qed.
+Theorem filter_expr_nv root : forall e pos, filter_expr (nv root) (nv pos) e = filter_expr root pos e.
+Proof.
+  induction e as [ps IH|v|op l r IHl IHr|op y IHy|op l r IHl IHr|ps IH] using expr_ind_steps; intros pos; cbn [filter_expr]; try reflexivity.
+  - destruct op; try (rewrite IHl, IHr; reflexivity); apply compare_operands_nv; apply expr_values_nv.
+  - change (Some (nv pos)) with (option_map nv (Some pos)).
+    rewrite (find_positions_with_nv (fun pos' e' => filter_expr root pos' e') (fun pos' e' => filter_expr (nv root) pos' e') root (Some pos) ps IH).
+    destruct (find_positions_with _ root (Some pos) ps) as [fr| |]; cbn [res_map bind]; try reflexivity.
+    rewrite nonempty_map. reflexivity.
+Qed.
+Theorem eval_nv :
+  (forall root cur ps, find_positions (nv root) (option_map nv cur) ps = res_map (map nv) (find_positions root cur ps)) /\
+  (forall root pos e, filter_expr (nv root) (nv pos) e = filter_expr root pos e).
+Proof.
+  split; [|intros; apply filter_expr_nv]. intros root cur ps. apply find_positions_with_nv.
+  apply steps_all_intro. intros e pos. apply filter_expr_nv.
 Qed.
 Lemma find_positions_nv root ps :
-  find_positions PATH_FUEL (nv root) None ps = res_map (map nv) (find_positions PATH_FUEL root None ps).
-Proof. exact (proj1 (eval_nv PATH_FUEL) root None ps). Qed.
+  find_positions (nv root) None ps = res_map (map nv) (find_positions root None ps).
+Proof. exact (proj1 eval_nv root None ps). Qed.
 
 Lemma build_values_nv : forall items buf offs, build_values buf (map nv items) offs = build_values buf items offs.
 Proof. induction items as [|x r IH]; intros buf offs; [reflexivity|]. cbn [map build_values]. rewrite enc_normalise. apply IH. Qed.
@@ -702,19 +713,19 @@ Proof. unfold build_array_items. change (VArr (map nv items)) with (nv (VArr ite
 
 Theorem select_t_normalise v ps m buf : select_t (nv v) ps m buf = select_t v ps m buf.
 Proof.
-  unfold select_t. rewrite find_positions_nv. destruct (find_positions PATH_FUEL v None ps) as [items| |]; cbn [res_map bind]; try reflexivity.
+  unfold select_t. rewrite find_positions_nv. destruct (find_positions v None ps) as [items| |]; cbn [res_map bind]; try reflexivity.
   rewrite nonempty_map. destruct (is_predicate ps); [reflexivity|]. f_equal.
   destruct m; rewrite ?firstn_map, ?map_length, ?build_values_nv, ?build_array_items_nv; reflexivity.
 Qed.
 Theorem exists_t_normalise v ps : exists_t (nv v) ps = exists_t v ps.
 Proof.
   unfold exists_t. destruct (is_predicate ps); [reflexivity|]. rewrite find_positions_nv.
-  destruct (find_positions PATH_FUEL v None ps) as [items| |]; cbn [res_map bind]; try reflexivity. rewrite nonempty_map. reflexivity.
+  destruct (find_positions v None ps) as [items| |]; cbn [res_map bind]; try reflexivity. rewrite nonempty_map. reflexivity.
 Qed.
 Theorem predicate_match_t_normalise v ps : predicate_match_t (nv v) ps = predicate_match_t v ps.
 Proof.
   unfold predicate_match_t. destruct (negb (is_predicate ps)); [reflexivity|]. rewrite find_positions_nv.
-  destruct (find_positions PATH_FUEL v None ps) as [items| |]; cbn [res_map bind]; try reflexivity. rewrite nonempty_map. reflexivity.
+  destruct (find_positions v None ps) as [items| |]; cbn [res_map bind]; try reflexivity. rewrite nonempty_map. reflexivity.
 Qed.
 
 (* get_by_path / get_by_path_first / get_by_path_array (md = MMixed / MFirst / MArray): byte-identical data and offsets *)
@@ -722,17 +733,17 @@ Theorem get_by_path_gen_forms md t v ps buf : wfb v = true -> stands_for t v ->
   get_by_path_gen_w md t ps buf = select_t v ps md buf.
 Proof.
   intros W [[-> T]|[Ht Hp]]; [rewrite (get_by_path_gen_w_enc md v ps buf W T); apply select_t_normalise|].
-  unfold get_by_path_gen_w. rewrite Ht, Hp. reflexivity.
+  unfold get_by_path_gen_w. rewrite Ht, Hp, (to_vec_text v W), (select_w_enc v ps md buf W). apply select_t_normalise.
 Qed.
 Theorem path_exists_forms t v ps : wfb v = true -> stands_for t v -> path_exists_w t ps = exists_t v ps.
 Proof.
   intros W [[-> T]|[Ht Hp]]; [rewrite (path_exists_w_enc v ps W T); apply exists_t_normalise|].
-  unfold path_exists_w. rewrite Ht, Hp. reflexivity.
+  unfold path_exists_w. rewrite Ht, Hp, (to_vec_text v W), (sel_exists_w_enc v ps W). apply exists_t_normalise.
 Qed.
 Theorem path_match_forms t v ps : wfb v = true -> stands_for t v -> path_match_w t ps = predicate_match_t v ps.
 Proof.
   intros W [[-> T]|[Ht Hp]]; [rewrite (path_match_w_enc v ps W T); apply predicate_match_t_normalise|].
-  unfold path_match_w. rewrite Ht, Hp. reflexivity.
+  unfold path_match_w. rewrite Ht, Hp. cbn [bind]. rewrite (to_vec_text v W), (sel_predicate_match_w_enc v ps W). apply predicate_match_t_normalise.
 Qed.
 
 (* ================================================================ as_f64 / to_f64: a parsed float is never a NaN *)
